@@ -1,3 +1,4 @@
+import XdsVerif.Proofs.Reg
 import XdsVerif.Model.Handlers
 import XdsVerif.Generated.Facts
 /-!
@@ -146,5 +147,21 @@ def exU (l : List (String × Option (Nat × Nat))) : CUp := fun k => (l.find? (f
 example : ((run [exU [("a", some (50, 10)), ("b", some (0, 5))], exU [("b", some (20, 5))]]).cfg "a",
            (run [exU [("a", some (50, 10)), ("b", some (0, 5))], exU [("b", some (20, 5))]]).cfg "b")
     = (some ⟨false, 0, 0⟩, some ⟨true, 20, 5⟩) := by decide
+
+/-! ## A handler created while updates arrive (`Model/Reg.lean`) -/
+
+theorem facts_registration : Generated.regShape = .atomic := by decide
+
+/-- **a circuit-breaker configuration handler created at any moment tracks the latest state**: over every interleaving of accepted updates and
+registrations (any number of handlers — one per client suite), every registered handler has completed for exactly the
+content the cache holds; in particular a handler registered between two updates has seen the second one -/
+theorem created_anytime_tracks_latest (ops : List Reg.Op) (s : Reg.S) (h : Reg.run Generated.regShape Reg.init ops = some s)
+    (k v : Nat) (hk : k ∈ s.handlers) (hv : s.cache = some v) : s.applied k = some v := by
+  rw [facts_registration] at h
+  obtain ⟨hP, hp⟩ := Reg.policy_before_data_all ops s h
+  exact hP k hk (by simp [hp k]) v hv
+
+example : (Reg.run Generated.regShape Reg.init [.update 1, .regBegin 7, .update 2, .regBegin 8]).map
+    (fun s => (s.cache, s.handlers, s.applied 7, s.applied 8)) = some (some 2, [7, 8], some 2, some 2) := by decide
 
 end XdsVerif.Properties.C16
